@@ -8,6 +8,10 @@ import re
 
 from simcore import Plan, run_sim, tool
 
+# offers to optimise, not inconsistencies (PR_NO_OK | PR_NOT_A_FIX, exit status unaffected):
+# PR_1E_CAN_COLLAPSE_EXTENT_TREE, PR_1E_CAN_NARROW_EXTENT_TREE
+NOT_PROBLEMS = {0x014006, 0x014007}
+
 PROBLEM_RE = re.compile(rb'<problem code="(0x[0-9a-fA-F]+)"[^>]*?(?:answer="(\d)")?[^>]*?(?:fixed="(\d)")?')
 
 
@@ -344,7 +348,10 @@ def e2fsck(img, mode, workdir, tag="fsck", clock=1500001000, rand_seed=3, faults
     if plog and os.path.exists(plog):
         data = open(plog, "rb").read()
         for m in re.finditer(rb'<problem code="(0x[0-9a-fA-F]+)"', data):
-            codes.append(int(m.group(1), 16))
+            c = int(m.group(1), 16)
+            if c in NOT_PROBLEMS:
+                continue
+            codes.append(c)
         os.unlink(plog)
     return r, codes
 
